@@ -144,7 +144,13 @@ macro_rules! Header {
                     $(
                         $name_bytes | $lower_case $(| $other_pattern)* => Some(Self::$konst),
                     )*
-                    _ => None
+                    /* header names are case-insensitive: `CONTENT-LENGTH`, `Content-length`, ... */
+                    _ => {
+                        $(
+                            if bytes.eq_ignore_ascii_case($name_bytes) {return Some(Self::$konst)}
+                        )*
+                        None
+                    }
                 }
             }
         }
